@@ -1,3 +1,4 @@
 import ArroyProofs.AuditCmd
 import ArroyProofs.Properties.C07
+import ArroyProofs.Properties.C07Nns
 #audit Arroy.C07
